@@ -179,12 +179,15 @@ Section Search.
     order_search loc (with_head (pcr0data tail v) ms).
 
   (** linearSearch.Process: blockSize and the block of goroutine [i] (Go int
-      division truncates towards zero) *)
+      division truncates towards zero).  [blockEnd] is the limit for the last
+      goroutine and for every goroutine whose block would pass the limit
+      ([if i == concurrencyFactor-1 || blockEnd > ls.limit]); a block that
+      starts at or after its end is empty. *)
   Definition lin_bs (limit cf : Z) : Z :=
     let q := Z.quot limit cf in if q <? 1 then 1 else q.
   Definition lin_block (limit cf i : Z) : Z * Z :=
     let bs := lin_bs limit cf in
-    (i * bs, if i =? cf - 1 then limit else (i + 1) * bs).
+    (i * bs, if (i =? cf - 1) || (limit <? (i + 1) * bs) then limit else (i + 1) * bs).
   Definition lin_blocks (limit cf : Z) : list (Z * Z) :=
     map (lin_block limit cf) (seqZ 0 (Z.to_nat cf)).
   (** the decrements one goroutine tries, in order *)
@@ -362,6 +365,11 @@ Section Search.
     let cpr := comb_cpr amount cf in
     map (fun i => (i * cpr, Z.min ((i + 1) * cpr) amount))
         (seqZ 0 (Z.to_nat ((amount + cpr - 1) / cpr))).
+  (** capacity of resultCh:
+      [(maxCombinationID + combinationsPerRoutine) / combinationsPerRoutine],
+      maxCombinationID = amount - 1 *)
+  Definition res_cap (amount cf : Z) : Z :=
+    let cpr := comb_cpr amount cf in (amount - 1 + cpr) / cpr.
 
   Fixpoint collect {X} (l : list (outcome X)) : outcome (list X) :=
     match l with
@@ -408,12 +416,14 @@ Section Search.
 
   (** Any non-empty set of the workers that have an event can reach it before
       the first of them cancels the others; a success wins over errors; the
-      first success in arrival order is kept.  resultCh has room for cf+1. *)
-  Definition level_outcomes (cf loc : Z) (ws : list (list (list Z))) : list jres :=
+      first success in arrival order is kept.  resultCh has room for [cap]
+      results and is read only after wg.Wait(): with more senders than that the
+      call never returns (Proofs: [level_no_hang], it does not happen). *)
+  Definition level_outcomes (cap cf loc : Z) (ws : list (list (list Z))) : list jres :=
     let evs := map (worker_events cf loc) ws in
     flat_map (ev_results loc) (concat evs)
     ++ (if forallb (existsb is_none) evs then [JNext] else [])
-    ++ (if cf + 1 <? Z.of_nat (length (filter (existsb is_some) evs)) then [JHang] else []).
+    ++ (if (Z.to_nat cap <? length (filter (existsb is_some) evs))%nat then [JHang] else []).
 
   (** [for disabledMeasurements := 0; disabledMeasurements < max; ...] *)
   Fixpoint job_levels (fuel : nat) (k : nat) (cf loc : Z) : list jres :=
@@ -425,7 +435,8 @@ Section Search.
             flat_map (fun o => match o with
                                | JNext => job_levels f (S k) cf loc
                                | x => [x]
-                               end) (level_outcomes cf loc ws)
+                               end)
+                     (level_outcomes (res_cap (amount64 (Z.of_nat nlog) k) cf) cf loc ws)
         | _ => [JPanic]
         end
     end.
